@@ -212,6 +212,7 @@ pub async fn run_script_ticks(sc: &Script, max_ticks: u32) -> Option<Outcome> {
     let mut randoms = (vec![], vec![]);
     let mut guard = 0;
     let mut ticks = 0;
+    let (mut trailing_done, mut late_retransmit) = (false, false);
     loop {
         if q_cs.is_empty() && q_sc.is_empty() {
             // a held-back (swapped) datagram whose successor never came is released now
@@ -222,6 +223,16 @@ pub async fn run_script_ticks(sc: &Script, max_ticks: u32) -> Option<Outcome> {
                 ticks += 1;
                 for x in c.tick().await { q_cs.push_back(x); }
                 for x in s.tick().await { q_sc.push_back(x); }
+                continue;
+            }
+            // one more timer round after both are Connected: nobody may retransmit any more
+            if max_ticks > 0 && !trailing_done && c.ep.letter() == 'C' && s.ep.letter() == 'C' {
+                trailing_done = true;
+                if c.unexpected_tick_possible() || s.unexpected_tick_possible() { return None; }
+                let (a, b) = (c.tick().await, s.tick().await);
+                if !a.is_empty() || !b.is_empty() { late_retransmit = true; }
+                for x in a { q_cs.push_back(x); }
+                for x in b { q_sc.push_back(x); }
                 continue;
             }
             break;
@@ -254,6 +265,7 @@ pub async fn run_script_ticks(sc: &Script, max_ticks: u32) -> Option<Outcome> {
     if c.unexpected_tick_possible() || s.unexpected_tick_possible() { return None; }
     // ---- after the handshake attempt: application data and exporter
     let mut fails = vec![];
+    if late_retransmit { fails.push(("conv:retransmission-after-both-connected".to_string(), sc.text())); }
     let mut tags = vec![format!("final:{}{}", c.ep.letter(), s.ep.letter()), format!("ticks_used:{ticks}")];
     let text = sc.text();
     for from_client in [true, false] {
@@ -273,9 +285,14 @@ pub async fn run_script_ticks(sc: &Script, max_ticks: u32) -> Option<Outcome> {
         if !connected && export.is_ok() { fails.push(("noconn:keying-material-exported".into(), text.clone())); }
         if let Some(e) = &x.expected {
             if connected {
-                if !x.shown_cert_fps.contains(e) {
-                    fails.push((if role == "server" { "role:server:no-client-certificate".to_string() } else { "role:client:connected-without-matching-certificate".to_string() }, text.clone()));
-                } else if !x.sig_ok_under.contains(e) {
+                if role == "server" && x.shown_cert_fps.is_empty() {
+                    // the known gap, and only it: the server connected although *no* Certificate message was ever
+                    // delivered to it (it never asks for one).  Any other way of connecting without the pinned
+                    // certificate (a Certificate was delivered but did not match, …) has its own signature below.
+                    fails.push(("role:server:connected-though-no-certificate-message-was-ever-requested-or-received".to_string(), text.clone()));
+                } else if !x.shown_cert_fps.contains(e) {
+                    fails.push((format!("role:{role}:connected-without-matching-certificate"), text.clone()));
+                } else if !x.sig_ok_under.contains(e) && role == "client" {
                     fails.push((format!("role:{role}:connected-without-proof-of-possession"), text.clone()));
                 }
             }
